@@ -779,6 +779,71 @@ Theorem bare_key_no_makedirs : forall k,
   w_guard W = true -> dirname W k = [] -> mk_ops k = [].
 Proof. intros k G D. unfold mk_ops. rewrite G, D. reflexivity. Qed.
 
+(* ---- re-keying: an entry removed under one spelling and re-added under another -------------------
+   alias_free forbids it, so it gets its own theorem.  Nothing is assumed about aliasing between removed
+   and kept keys: what makes it true is the ORDER of the calls - all unlinks, then all writes. *)
+Lemma write_ops_no_unlink : forall texts files' k, ~ In (OpUnlink k) (write_ops texts files').
+Proof.
+  intros texts files' k I. unfold write_ops in I. apply in_flat_map in I. destruct I as [km [_ J]].
+  apply in_app_or in J. destruct J as [J|J].
+  - unfold mk_ops in J. destruct (w_guard W && is_empty (dirname W (fst km))); [destruct J|].
+    destruct J as [J|[]]. discriminate.
+  - destruct (will_write texts km); [|destruct J]. destruct J as [J|[]]. discriminate.
+Qed.
+
+Lemma exit_phase_weak : forall texts files' fs fs' tr,
+  exit_phase W fs texts files' = (fs', tr, EOk tt) ->
+  tr = map OpUnlink (removed_keys W texts files') ++ write_ops texts files' /\
+  (NoDup (map cn (keys files')) -> forall k m, In (k, m) files' -> will_write texts (k, m) = true ->
+     content fs' (cn k) = Some (print W m)).
+Proof.
+  unfold exit_phase. intros texts files' fs fs' tr H.
+  destruct (unlink_all W fs (removed_keys W texts files')) as [[fs1 tr1] r1] eqn:U.
+  destruct r1 as [[]|e]; [|discriminate].
+  destruct (write_all W fs1 texts files') as [[fs2 tr2] r2] eqn:Wr. inversion H; subst.
+  destruct (unlink_all_ok _ _ _ _ U) as [Ht1 _]. destruct (write_all_ok _ _ _ _ _ Wr) as [Ht2 _].
+  split; [congruence|]. intros ND k m I Wt. rewrite (write_all_entries _ _ _ _ _ Wr ND _ _ I), Wt. reflexivity.
+Qed.
+
+(* the call sequence of a completed block, with no hypothesis on aliasing *)
+Theorem completed_trace : forall fuel fs root body texts files files' fs' tr,
+  completed fuel fs root body texts files files' fs' tr ->
+  tr = map OpRead (keys files) ++ map OpUnlink (removed_keys W texts files') ++ write_ops texts files'.
+Proof.
+  intros fuel fs root body texts files files' fs' tr [tr1 [tr2 [B [Bd [X Et]]]]].
+  destruct (visits_each_once _ _ _ _ _ _ B) as [Htr1 _]. destruct (exit_phase_weak _ _ _ _ _ X) as [Htr2 _].
+  congruence.
+Qed.
+
+Theorem rekeyed_entry_survives : forall fuel fs root body texts files files' fs' tr k k' m,
+  completed fuel fs root body texts files files' fs' tr ->
+  NoDup (map cn (keys files')) ->                    (* the keys that are KEPT denote distinct files *)
+  In k (keys files) -> ~ In k (keys files') ->       (* k was removed from the dict ...             *)
+  In (k', m) files' -> ~ In k' (keys files) ->       (* ... k' was added ...                        *)
+  cn k' = cn k ->                                    (* ... and spells the same file                *)
+  content fs' (cn k) = Some (print W m) /\
+  exists pre post, tr = pre ++ post /\ In (OpUnlink k) pre /\ In (OpWrite k') post /\
+    (forall p, ~ In (OpWrite p) pre) /\ (forall p, ~ In (OpUnlink p) post).
+Proof.
+  intros fuel fs root body texts files files' fs' tr k k' m C ND Ik Nk I' Nk' E.
+  pose proof (completed_trace _ _ _ _ _ _ _ _ _ C) as Htr.
+  destruct C as [tr1 [tr2 [B [Bd [X Et]]]]].
+  destruct (visits_each_once _ _ _ _ _ _ B) as [_ [_ [EK _]]].
+  destruct (exit_phase_weak _ _ _ _ _ X) as [_ Hen].
+  assert (L : lookup k' texts = None).
+  { destruct (lookup k' texts) eqn:L; [|reflexivity]. exfalso. apply Nk'. rewrite <- EK. apply has_In.
+    unfold has. rewrite L. reflexivity. }
+  assert (Wt : will_write texts (k', m) = true) by (unfold will_write, differs; cbn [fst snd]; rewrite L; reflexivity).
+  split; [rewrite <- E; apply (Hen ND _ _ I' Wt)|].
+  exists (map OpRead (keys files) ++ map OpUnlink (removed_keys W texts files')), (write_ops texts files').
+  split; [rewrite Htr, app_assoc; reflexivity|]. split; [|split; [|split]].
+  - apply in_or_app. right. apply in_map. apply removed_keys_spec. rewrite EK. auto.
+  - unfold write_ops. apply in_flat_map. exists (k', m). split; [exact I'|]. apply in_or_app. right.
+    rewrite Wt. left. reflexivity.
+  - intros p J. apply in_app_or in J. destruct J as [J|J]; apply in_map_iff in J; destruct J as [? [? _]]; discriminate.
+  - intro p. apply write_ops_no_unlink.
+Qed.
+
 (* ---- edit_file -------------------------------------------------------------------------------- *)
 Theorem edit_file_spec : forall fs p body fs' tr r,
   edit_file W fs p body = (fs', tr, r) ->
